@@ -168,6 +168,7 @@ type Model struct {
 	Errs  []int // ids of expected errors, in order
 	Calls []int // expected user-function arguments, in order (sequential stages)
 	Inf   func(k int) int // k-th value of an infinite generator (after skipping failures)
+	InfMax int            // number of values a generator delivers before a fail-fast error ends it (−1: unbounded)
 	// number of input elements a sequential stage may consume at most (−1: all)
 	MaxConsumed int
 }
@@ -198,7 +199,7 @@ func baseStage(stage string) (string, bool) {
 }
 
 func modelOf(p *driver.Plan) Model {
-	m := Model{MaxConsumed: -1}
+	m := Model{MaxConsumed: -1, InfMax: -1}
 	var in []int
 	if len(p.Inputs) > 0 {
 		in = p.Inputs[0]
@@ -283,6 +284,10 @@ func modelOf(p *driver.Plan) Model {
 		// order across inputs is free: see joinCheck
 	case "Unfold":
 		// seed = p.FnArg; value k = f^k(seed); call k computes value k+1
+		if ff := firstFail(p, 1<<30); ff >= 0 && p.Mode == "lift" {
+			m.InfMax = ff + 1
+			m.Errs = []int{ff}
+		}
 		m.Inf = func(k int) int {
 			x := p.FnArg
 			for i := 0; i < k; i++ {
@@ -291,6 +296,18 @@ func modelOf(p *driver.Plan) Model {
 			return x
 		}
 	case "Emit":
+		if p.Mode == "lift" {
+			if ff := firstFail(p, 1<<30); ff >= 0 {
+				m.InfMax = ff
+				m.Errs = []int{ff}
+			}
+		} else if p.Mode == "try" {
+			for i := 0; i < 1<<12; i++ {
+				if fails[i] {
+					m.Errs = append(m.Errs, i)
+				}
+			}
+		}
 		m.Inf = func(k int) int {
 			// k-th non-failing index
 			i := 0
@@ -330,6 +347,7 @@ type Sys struct {
 	fork      bool
 	multiset  bool // outputs are compared as multisets (fork stages)
 	Clause    string
+	joinChk   func(i, v int)
 }
 
 func (s *Sys) fails(idx int) bool {
@@ -484,6 +502,11 @@ func (s *Sys) consumeDone(ch <-chan struct{}) {
 // prefix of the model's output (or, for fork stages, a sub-multiset).
 func (s *Sys) onValue(name string, st *driver.Stream[int], want []int, i, v int) {
 	if s.M.Inf != nil {
+		if s.M.InfMax >= 0 && i >= s.M.InfMax {
+			s.E.Failf(s.Clause+".prefix", "generator delivered a value after its fail-fast error",
+				"%s: value %d (%d) delivered although the function failed at call %d", s.P.Stage, i, v, s.M.Errs)
+			return
+		}
 		if w := s.M.Inf(i); w != v {
 			s.E.Failf(s.Clause+".prefix", "generator delivered a value out of sequence",
 				"%s: value %d is %d, expected %d", s.P.Stage, i, v, w)
@@ -492,7 +515,10 @@ func (s *Sys) onValue(name string, st *driver.Stream[int], want []int, i, v int)
 	}
 	stage, _ := baseStage(s.P.Stage)
 	if stage == "Join" {
-		return // checked per input at the end and online in joinOnline
+		if s.joinChk != nil {
+			s.joinChk(i, v)
+		}
+		return
 	}
 	if s.multiset {
 		got := make([]driver.Obs[int], i)
@@ -639,6 +665,7 @@ func BuildStage(e *driver.Env, clause string) *Sys {
 		for i := range p.Inputs {
 			ins = append(ins, s.input(i))
 		}
+		s.joinChk = joinOnline(s, clause+".prefix")
 		s.consumeOut(pipe.Join(ctx, ins...))
 	case "Throttling":
 		s.consumeOut(pipe.Throttling(ctx, s.input(0), p.N, freq))
